@@ -121,7 +121,7 @@ PROPS = {
         "explanation": "cross-validation of the two solvers by a certified comparator",
     },
     "C05": {
-        "extra_props": ["C05fp"],
+        "extra_props": ["C05fp", "C05mixed"],
         "level": "translation_validation",
         "rule": "150 generated programs: 1-2 #[auto] traits (optionally a #[coinductive] trait with cyclic impls), 3-6 structs with 0-2 fields forming rings and chains "
                 "(recursive and mutually recursive), explicit positive (plain and conditional) and negative auto-trait impls; 7 closed goals each (atoms, conjunctions, not); "
@@ -675,11 +675,12 @@ PROPS = {
         'explanation': "bounding mechanisms proved on an exact model; the real engines' termination observed through deterministic work counters in child processes",
     },
     'C10': {
+        'extra_props': ['C10fp', 'C05mixed'],
         'level': 'proof',
         'rule': "MODEL lines: abstract instances are READ OFF THE REAL CODE (for every goal reachable from the root goals the harness asks chalk for the clauses solve_from_clauses would try - custom clauses, program_clauses_that_could_match, program_clauses_for_env, could_match filter - instantiates each against the goal with the real InferenceTable as Fulfill::new_with_clause does and canonicalizes the conditions as Fulfill::prove does; programs outside the abstraction of FixedPoint.lean are refused and counted) for three families: ground dependency graphs of <= 12 structs over an inductive and a #[coinductive] trait (chains with/without base case, diamonds, one cycle with/without base case entered through a tail, nested SCCs, two SCCs sharing nodes, random graphs; all-inductive / all-coinductive / mixed kinds; several impls per type), goals with unknowns (the F10 family: blanket impls `impl<X> Qi for X where X: Qj` + per trait no or >= 2 facts), and ProgGen programs with closed atomic goals whose goal closure is finite (<= 48 goals). One request line = one SCRIPT of calls on ONE real RecursiveSolver (cache on or off, overflow depth): per call the outcome kind (unique/none/ambig/panic:<site>), the hook's work counter and the hook-dumped cache must equal the model's, exactly. C10 scripts: histories of 1-7 plain solves of root goals (repetitions included) with the cache on and the same history with the cache off. ORACLE (real code, SLG, recursive, recursive without cache; no model line): corpus/C10 first (F10, F13, F14, F17 inputs), then generated subjects (as C09 without growing impls), goal pool of <= 5: the fresh-solver answer of every goal, then ALL permutations of <= 4 goals (5 in the thorough tier), every goal twice, and 12 (40) random sequences of length 2-6 with repetitions, each posed to ONE solver instance; every answer must equal (==) the fresh solver's; recursive cache-on vs cache-off fresh answers must be equal. One failing history per solver and program is reported. Non-trivial = instance with a cycle or an outcome other than unique",
         'technique': "Lean 4 theorems about an executable model of the recursive solver's fixed-point/caching framework (invariant over all call histories: cache soundness w.r.t. the instance's equations) + exact differential correspondence (outcome, work counter, cache contents) + exhaustive small histories on both real solvers",
         'claim': "RECURSIVE framework, proof: cache_transparent_partial - for every acyclic instance (Ranked: any size, inductive/coinductive goals, goals with unknowns), every configuration with the F3/F7 repairs, every two histories of ARBITRARY calls (plain, interrupted by any oracle, panicking at any work step) on solvers with or without cache, two plain solves of the same goal that return give the same value (answer_is_semantic: the value the instance's equations determine); cache_transparent_acyclic: when the goal's rank fits under the overflow depth the solve after any history RETURNS and returns the fresh solver's value (unconditional). The full statement is refuted on the code as found (legacy_cache_transparent_refuted = F10, by decide on the 4-clause witness; f10_repaired) and is STILL refuted on the repaired code (cache_transparent_refuted, cache_on_off_refuted = F13 mixed cycles). The model agrees exactly with the real solver on every script incl. the F10 and F13 witnesses (pre-repair code checked against Cfg.legacy, repaired code against Cfg.current). SLG: differential only (translation validation against a fresh solver run).",
-        'note': "Findings: F10 reproduced on the unchanged tree, REPAIRED (commit 4106fc3), regression input in corpus/C10. OPEN: F13 recursive_mixed_cycle_cached (NEW: the error value of a mixed inductive/coinductive cycle is entry-point dependent but cached), F14 slg_coinductive_cycle_table_reuse (lead's), F17 slg_answer_order_depends_on_history (NEW: SLG aggregate depends on answer order, which depends on earlier queries; both answers sound), F22 recursive_ambig_precision_depends_on_history (NEW, benign: the precision of an ambiguous answer depends on the entry point of a cycle; reported only when both answers admit solutions and one is ambiguous), F23 slg_runaway_after_history (NEW: a goal answered in 88 steps by a fresh SLG solver does not return after another goal of the same coinductive family was solved on the same forest). NOT YET THEOREMS (differential only): cache transparency for instances with inductive or coinductive cycles (no mixed cycles), equality of panics (with a cache a deep goal can be answered where a fresh solver overflows; the theorem speaks of calls that return), tables_keyed_by_goal for SLG. Trusted: Lean kernel, model fidelity (differential), instance extraction in fp.rs, harness.",
+        'note': "Findings: F10 reproduced on the unchanged tree, REPAIRED (commit 4106fc3), regression input in corpus/C10. OPEN: F13 recursive_mixed_cycle_cached (NEW: the error value of a mixed inductive/coinductive cycle is entry-point dependent but cached), F14 slg_coinductive_cycle_table_reuse (lead's), F17 slg_answer_order_depends_on_history (NEW: SLG aggregate depends on answer order, which depends on earlier queries; both answers sound), F22 recursive_ambig_precision_depends_on_history (NEW, benign: the precision of an ambiguous answer depends on the entry point of a cycle; reported only when both answers admit solutions and one is ambiguous), F23 slg_runaway_after_history (NEW: a goal answered in 88 steps by a fresh SLG solver does not return after another goal of the same coinductive family was solved on the same forest). NOW THEOREMS (Props/C10fp.lean, Props/C05mixed.lean; ground instances, any cycle structure, no mixed cycle): history_independent_cyclic, cache_on_off_agree_cyclic (every answer after any history of plain calls, cache on or off, is the fixed-point answer), mixed_history_correct / mixed_answers_agree (stratified instances mixing polarities without a mixed cycle); f13_not_stratified shows the refuted mixed-cycle instance lies outside. NOT YET THEOREMS (differential only): goals with unknowns, equality of panics (with a cache a deep goal can be answered where a fresh solver overflows; the theorem speaks of calls that return), tables_keyed_by_goal for SLG. Trusted: Lean kernel, model fidelity (differential), instance extraction in fp.rs, harness.",
         'correspondence': 'FixedPoint.runHistory / solveRootGoal with the persistent cache (lean/ChalkModel/FixedPoint.lean) vs one chalk_recursive::RecursiveSolver answering a history (outcome kind, work counter, Cache entries through the cfg(chalk_verif) accessor)',
     },
     'C11': {
